@@ -30,6 +30,9 @@ RUN_PROFILES = {
     # several loop-indexed parameters per call, several parallel loops per task
     "params_indexed": dict(params=1.0, item_bias=0.8, imm=0.1, max_block=4,
                            w={"parloop": 5, "count": 3, "call": 3, "service": 3, "cond": 0, "while": 0, "parallel": 1}),
+    # parallel-loop instances that finish completely inside the start of the next one
+    "params_imm": dict(params=1.0, item_bias=0.8, imm=0.6, max_block=3,
+                       w={"parloop": 6, "count": 2, "call": 3, "service": 3, "cond": 0, "while": 0, "parallel": 1}),
     "hostile_append": dict(params=1.0, mutate="append", w={"count": 4, "parloop": 2, "call": 3}),
     "hostile_clear": dict(params=1.0, mutate="clear", w={"count": 4, "parloop": 2, "call": 3}),
     "hostile_replace": dict(params=1.0, mutate="replace", w={"count": 4, "parloop": 2, "call": 3}),
@@ -76,7 +79,7 @@ PROPS = {
                 profiles=["uuid", "uuid_cond_loops", "uuid_loops_calls", "loops", "parloop", "parallel", "react_loops", "ids_junk"], quick=240, thorough=6000,
                 finding_profiles=["parloop_all"]),
     "C15": dict(kind="run", proj="P_C15", mon="mon_true", property_files=("C15net",),
-                profiles=["params", "params_indexed", "hostile_append", "hostile_clear", "hostile_replace"],
+                profiles=["params", "params_indexed", "params_imm", "hostile_append", "hostile_clear", "hostile_replace"],
                 quick=240, thorough=6000, finding_profiles=["parloop_all"]),
     "C17": dict(kind="run", proj="P_C17", mon="mon_C17", property_files=("C20net", "C17obs", "RefinementTransfer"), extra_kinds=("obs",), py_monitor="petri_net_notices",
                 profiles=["observers", "observers_loops"], quick=200, thorough=5000, finding_profiles=["observers_parloop"]),
